@@ -1,6 +1,7 @@
 package rules
 
 import (
+	"go/constant"
 	"go/token"
 	"go/types"
 	"sort"
@@ -365,9 +366,38 @@ func (c *Ctx) c08Atoms(full, two int64) {
 		fn := c.P.Func(a.fn)
 		okA := false
 		gets := CallsTo(fn, fnGetSession)
+		keyArg := 1
+		if len(gets) == 0 {
+			// the look-up helper GetSession itself uses, asked for the session state
+			for _, call := range Calls(fn) {
+				g := StaticCallee(call)
+				if g == nil || !c.inRepo(g) || len(call.Common().Args) != 3 {
+					continue
+				}
+				if ck, isK := ConstStr(Arg(call, 1)); !isK || ck != "session" {
+					continue
+				}
+				if okP, _ := c.presencePassThrough(g, 1); okP {
+					gets = append(gets, call)
+					keyArg = 2
+				}
+			}
+		}
 		if len(gets) == 1 {
-			k, isC := constArgStr(gets[0], 1)
+			k, isC := constArgStr(gets[0], keyArg)
 			present := ResultValue(gets[0], 1)
+			if isLookupStruct(gets[0].Common().Signature().Results()) {
+				present = nil
+				for _, b := range fn.Blocks {
+					for _, in := range b.Instrs {
+						if v, isV := in.(ssa.Value); isV {
+							if fc, fi := flatResultOf(v); fc != nil && fc == gets[0] && fi == 1 && v.Type().String() == "bool" {
+								present = v
+							}
+						}
+					}
+				}
+			}
 			for _, b := range fn.Blocks {
 				for _, in := range b.Instrs {
 					ret, isRet := in.(*ssa.Return)
@@ -400,7 +430,7 @@ func (c *Ctx) presencePassThrough(fn *ssa.Function, depth int) (bool, string) {
 			return true
 		}
 		g := StaticCallee(call)
-		if g != nil && c.inRepo(g) && g.Signature.Results().Len() == 2 {
+		if g != nil && c.inRepo(g) && (g.Signature.Results().Len() == 2 || isLookupStruct(g.Signature.Results())) {
 			ok, _ := c.presencePassThrough(g, depth+1)
 			return ok
 		}
@@ -408,7 +438,7 @@ func (c *Ctx) presencePassThrough(fn *ssa.Function, depth int) (bool, string) {
 	}
 	var sources []ssa.CallInstruction
 	for _, call := range Calls(fn) {
-		if call.Common().Signature().Results().Len() == 2 && isSource(call) {
+		if res := call.Common().Signature().Results(); (res.Len() == 2 || isLookupStruct(res)) && isSource(call) {
 			sources = append(sources, call)
 		}
 	}
@@ -418,7 +448,7 @@ func (c *Ctx) presencePassThrough(fn *ssa.Function, depth int) (bool, string) {
 	nPass := 0
 	for _, b := range fn.Blocks {
 		ret, ok := b.Instrs[len(b.Instrs)-1].(*ssa.Return)
-		if !ok || len(ret.Results) != 2 {
+		if !ok {
 			continue
 		}
 		// one (value, presence) pair per way of arriving at the return: a merged
@@ -427,9 +457,23 @@ func (c *Ctx) presencePassThrough(fn *ssa.Function, depth int) (bool, string) {
 			v0, v1 ssa.Value
 			at     ssa.Instruction // last instruction before the pair is fixed
 		}
-		pairs := []pair{{ret.Results[0], ret.Results[1], ret}}
-		p0, isP0 := ret.Results[0].(*ssa.Phi)
-		p1, isP1 := ret.Results[1].(*ssa.Phi)
+		var r0, r1 ssa.Value
+		switch {
+		case len(ret.Results) == 2:
+			r0, r1 = ret.Results[0], ret.Results[1]
+		case len(ret.Results) == 1 && isLookupStruct(fn.Signature.Results()):
+			// the pair handed back as a small struct {value, found}
+			f0, f1, okS := structPair(ret.Results[0])
+			if !okS {
+				return false, "return at " + c.P.InstrPos(ret) + " hands back a struct whose fields cannot be read off"
+			}
+			r0, r1 = f0, f1
+		default:
+			continue
+		}
+		pairs := []pair{{r0, r1, ret}}
+		p0, isP0 := r0.(*ssa.Phi)
+		p1, isP1 := r1.(*ssa.Phi)
 		if isP0 && isP1 && p0.Block() == p1.Block() && len(p0.Edges) == len(p1.Edges) {
 			pairs = nil
 			for i := range p0.Edges {
@@ -438,8 +482,8 @@ func (c *Ctx) presencePassThrough(fn *ssa.Function, depth int) (bool, string) {
 			}
 		}
 		for _, pr := range pairs {
-			c0, i0 := CallOf(pr.v0)
-			c1, i1 := CallOf(pr.v1)
+			c0, i0 := flatResultOf(pr.v0)
+			c1, i1 := flatResultOf(pr.v1)
 			if c0 != nil && c0 == c1 && i0 == 0 && i1 == 1 {
 				isSrc := false
 				for _, sc := range sources {
@@ -853,4 +897,103 @@ func (c *Ctx) anonymousIsNotFound(rule string) {
 			r.Check(g != nil && g.Name() == "ErrUserNotFound", rule, name, "empty pid => ErrUserNotFound", posf(c, ret), "returns the sentinel", "the empty-pid path does not return ErrUserNotFound")
 		}
 	}
+}
+
+// isLookupStruct: the results are one small struct {string, bool} — the
+// (value, found) pair of a state look-up handed back as a struct.
+func isLookupStruct(res *types.Tuple) bool {
+	if res.Len() != 1 {
+		return false
+	}
+	st, ok := res.At(0).Type().Underlying().(*types.Struct)
+	if !ok || st.NumFields() != 2 {
+		return false
+	}
+	b0, ok0 := st.Field(0).Type().Underlying().(*types.Basic)
+	b1, ok1 := st.Field(1).Type().Underlying().(*types.Basic)
+	return ok0 && ok1 && b0.Kind() == types.String && b1.Kind() == types.Bool
+}
+
+// structPair reads the two fields of a struct value built in the function: a
+// load of a local literal (field stores), the zero struct, or a merge of those.
+func structPair(v ssa.Value) (ssa.Value, ssa.Value, bool) {
+	switch x := v.(type) {
+	case *ssa.Const:
+		if x.Value == nil {
+			st := x.Type().Underlying().(*types.Struct)
+			return ssa.NewConst(constant.MakeString(""), st.Field(0).Type()), ssa.NewConst(constant.MakeBool(false), st.Field(1).Type()), true
+		}
+	case *ssa.UnOp:
+		a, ok := x.X.(*ssa.Alloc)
+		if !ok || x.Op != token.MUL || a.Referrers() == nil {
+			return nil, nil, false
+		}
+		var f [2]ssa.Value
+		for _, ref := range *a.Referrers() {
+			fa, isFA := ref.(*ssa.FieldAddr)
+			if !isFA || fa.Field > 1 || fa.Referrers() == nil {
+				continue
+			}
+			for _, rr := range *fa.Referrers() {
+				if st, isSt := rr.(*ssa.Store); isSt && st.Addr == ssa.Value(fa) {
+					if f[fa.Field] != nil {
+						return nil, nil, false
+					}
+					f[fa.Field] = st.Val
+				}
+			}
+		}
+		if f[0] != nil && f[1] != nil {
+			return f[0], f[1], true
+		}
+	}
+	return nil, nil, false
+}
+
+// flatResultOf is CallOf that also sees a field of a struct-typed result
+// (`got := getState(…)`; `got.found`), numbering results as if the struct's
+// fields were returned one by one.
+func flatResultOf(v ssa.Value) (ssa.CallInstruction, int) {
+	if c, i := CallOf(v); c != nil {
+		return c, i
+	}
+	field := -1
+	var base ssa.Value
+	switch x := v.(type) {
+	case *ssa.Field:
+		field, base = x.Field, x.X
+	case *ssa.UnOp:
+		if fa, ok := x.X.(*ssa.FieldAddr); ok && x.Op == token.MUL {
+			if a, isA := fa.X.(*ssa.Alloc); isA && a.Referrers() != nil {
+				n := 0
+				for _, ref := range *a.Referrers() {
+					if st, isSt := ref.(*ssa.Store); isSt && st.Addr == ssa.Value(a) {
+						base = st.Val
+						n++
+					}
+				}
+				if n == 1 {
+					field = fa.Field
+				}
+			}
+		}
+	}
+	if field < 0 || base == nil {
+		return nil, 0
+	}
+	if c, i := CallOf(base); c != nil {
+		if _, isS := base.Type().Underlying().(*types.Struct); isS {
+			res := c.Common().Signature().Results()
+			flat := 0
+			for k := 0; k < i && k < res.Len(); k++ {
+				if st, ok := res.At(k).Type().Underlying().(*types.Struct); ok {
+					flat += st.NumFields()
+				} else {
+					flat++
+				}
+			}
+			return c, flat + field
+		}
+	}
+	return nil, 0
 }
